@@ -128,9 +128,15 @@ VariantPeptidesT(tx, V, cfg, canonical, dropTail, loose) ==
       (* label; Sound allows them                                                           *)
       sectAll == UNION {HapSect(tx, H, cfg) : H \in HS}
       refsect == IF loose THEN {} ELSE HapSect(tx, {}, cfg)
-      base == (main \cup sectAll) \ (RefPeptides(tx, cfg) \cup canonical \cup refsect)
-      (* W>F images are made from the variant peptides themselves                        *)
-      w2f == IF W2FOn(cfg) THEN W2FAll(base, cfg) \ (IF loose THEN canonical ELSE (RefPeptides(tx, cfg) \cup canonical)) ELSE {}
+      (* likewise, with W>F reassignment switched on, the W>F images of the unmodified        *)
+      (* transcript's products belong to the unmodified transcript (callAltTranslation)       *)
+      refw2f == IF loose \/ ~W2FOn(cfg) THEN {} ELSE W2FAll(RefPeptides(tx, cfg) \cup refsect, cfg)
+      base == (main \cup sectAll) \ (RefPeptides(tx, cfg) \cup canonical \cup refsect \cup refw2f)
+      (* W>F images: Complete requires those of the reported variant peptides; Sound allows    *)
+      (* those of every product of a variant haplotype (the tool forms them before its global  *)
+      (* canonical filter, so the image of an I/L-canonical variant peptide can be reported)   *)
+      pre == IF loose THEN main \cup sectAll ELSE base
+      w2f == IF W2FOn(cfg) THEN W2FAll(pre, cfg) \ (IF loose THEN canonical ELSE (RefPeptides(tx, cfg) \cup canonical \cup refw2f)) ELSE {}
   IN base \cup w2f
 
 (* Complete: what C01 requires (open-ended tail fragments of mRNA_end_NF         *)
